@@ -137,7 +137,9 @@ fn run(c: &Case) -> Outcome {
             let si = p.streams.iter().enumerate().find(|(i, _)| &sname(*i) == n);
             let local = si.map(|(i, _)| p.local_edges().iter().any(|(_, c)| *c == i)).unwrap_or(false);
             let fan = si.map(|(_, s)| p.fanout_sources().contains(&s.src)).unwrap_or(false);
+            let seq_remote = si.map(|(i, _)| p.seq_over_remote_transform().contains(&i)).unwrap_or(false);
             let sig = match d {
+                _ if seq_remote => "sequence-over-remote-transforming-stream:resolved-differently",
                 Diff::Missing if fan => "fanout-source:consumer-starved",
                 Diff::Extra if local => "same-context-derived:duplicated",
                 Diff::Missing => "output-missing",
@@ -193,6 +195,10 @@ fn run(c: &Case) -> Outcome {
 }
 
 fn main() {
+    if std::env::var("VERIF_SHRINK_ITERS").is_err() {
+        // every shrink step starts real threads
+        std::env::set_var("VERIF_SHRINK_ITERS", "250");
+    }
     let check = Check::new("C26", "exploration");
     check.rule(
         "random programs of 2-6 streams over 2-3 named contexts (filters, shifted emits, count / sliding-count / tumbling aggregates, \
@@ -206,12 +212,12 @@ fn main() {
     check.assume("H5 accounting (pending counter) is the completion criterion; tokio mpsc channels are FIFO per sender");
     check.assume("thread schedules are sampled (seeded perturbation on top of the OS scheduler); a pass is evidence, not a proof over all schedules");
     let max_inputs = check.pick(150, 200);
-    let clean = Topo { max_streams: 6, fanout: false, local_derived: false, pure_ingress: false };
+    let clean = Topo { max_streams: 6, fanout: false, local_derived: false, pure_ingress: false, seq_over_remote_transform: false };
     check.explore("ample_capacity", move || strat(clean, false, max_inputs), 160, 2400, run);
     check.explore("small_capacity", move || strat(clean, true, max_inputs), 120, 1800, run);
-    let local = Topo { max_streams: 6, fanout: false, local_derived: true, pure_ingress: false };
+    let local = Topo { max_streams: 6, fanout: false, local_derived: true, pure_ingress: false, seq_over_remote_transform: false };
     check.explore("local_derived", move || strat(local, false, max_inputs), 60, 800, run);
-    let fan = Topo { max_streams: 6, fanout: true, local_derived: false, pure_ingress: false };
+    let fan = Topo { max_streams: 6, fanout: true, local_derived: false, pure_ingress: false, seq_over_remote_transform: false };
     check.explore("fanout", move || strat(fan, false, max_inputs), 60, 800, run);
     check.finish();
 }
